@@ -410,6 +410,13 @@ pub fn parse_int(bytes: &[u8]) -> Result<i64, BoxedError> {
 
 macro_rules! int_asset {
     ($name:ident, $loader:ident, $tag:literal, [$($ext:literal),*], $hot:expr) => {
+        int_asset!(@impl $name, $loader, $tag, $hot, { const EXTENSIONS: &'static [&'static str] = &[$($ext),*]; });
+    };
+    // one extension through `EXTENSION`: the extension list is the trait's default `&[Self::EXTENSION]`
+    ($name:ident, $loader:ident, $tag:literal, single $ext:literal, $hot:expr) => {
+        int_asset!(@impl $name, $loader, $tag, $hot, { const EXTENSION: &'static str = $ext; });
+    };
+    (@impl $name:ident, $loader:ident, $tag:literal, $hot:expr, { $($consts:tt)* }) => {
         #[derive(Debug)]
         pub struct $name(pub V);
         pub struct $loader;
@@ -429,7 +436,7 @@ macro_rules! int_asset {
             }
         }
         impl Asset for $name {
-            const EXTENSIONS: &'static [&'static str] = &[$($ext),*];
+            $($consts)*
             type Loader = $loader;
             const HOT_RELOADED: bool = $hot;
         }
@@ -441,7 +448,7 @@ int_asset!(TIntS, TIntSLoader, "S", ["x"], false);
 impl NotHotReloaded for TIntS {}
 int_asset!(TMulti, TMultiLoader, "M", ["p", "q", "r"], true);
 int_asset!(TNoExt, TNoExtLoader, "X", [], true);
-int_asset!(TEmptyExt, TEmptyExtLoader, "E", [""], true);
+int_asset!(TEmptyExt, TEmptyExtLoader, "E", single "", true);
 
 /// `default_value` turns any failure into a marker value recording the error class.
 #[derive(Debug)]
